@@ -15,6 +15,7 @@ import CaddyModel.Util.Hex
 import CaddyModel.C02.Model
 import CaddyModel.C02.Key
 import CaddyModel.C02.Quic
+import CaddyModel.C13.Listen
 
 namespace CaddyModel.C02
 
@@ -370,13 +371,12 @@ def observedHolders (snap : String) (a : Addr) : Option Nat :=
     that the recorded snapshot shows have happened -/
 def inferAdminCloses (s : State) (snap : String) : State :=
   s.admRetired.foldl (fun st p =>
-    match observedHolders snap p.2 with
-    | some n =>
-      if n < (st.asocks p.2).hs.length then
-        match step? st (.adminClose p.1 p.2) with
-        | some st' => st'
-        | none => st
-      else st
+    match step? st (.adminClose p.1 p.2) with
+    | some st' =>
+      -- apply the close only when the snapshot shows exactly the state after it (a snapshot taken in the
+      -- middle of the close is left for the next event; the address stays masked until then)
+      let obs := String.ofList ((adminPositions p.2).filterMap fun i => snap.toList[i]?)
+      if obs == sockStr p.2 (st'.asocks p.2) && obs != sockStr p.2 (st.asocks p.2) then st' else st
     | none => st) s
 
 def checkObs (s : State) (snap ans : String) : Option String :=
@@ -489,9 +489,13 @@ def unhexStr (s : String) : Option String := (Hex.decode s).map bytesToString
     returned): parse result, sockets, and the keys of the first socket; with `L` the harness really
     listens on the address, reads the booked key off the pool and asks `ListenerUsage` the way the HTTP
     app's Stop does -/
-def handleKey (listen nw host port : String) : String :=
+def handleKey (listen addr nw host port : String) : String :=
   match unhexStr nw, unhexStr host, unhexStr port with
   | some n, some h, some p =>
+    -- SplitNetworkAddress / net.SplitHostPort: the byte-level model (C13/Listen.lean) must say what the
+    -- real splitter said
+    if (Hex.decode addr).bind C13.splitNetworkAddress != some (n.toUTF8.toList, h.toUTF8.toList, p.toUTF8.toList) then
+      "split-model-differs" else
     match parseAddr n h p with
     | none => "err"
     | some na =>
@@ -530,7 +534,7 @@ def handleQuic (ops : String) : String :=
 
 def handle : List String → String
   | ["quic", ops] => handleQuic ops
-  | ["key", listen, _, nw, host, port] => if listen == "L" || listen == "N" then handleKey listen nw host port else "bad-op"
+  | ["key", listen, addr, nw, host, port] => if listen == "L" || listen == "N" then handleKey listen addr nw host port else "bad-op"
   | ["seq", grace, napps, cfgs, toks, trace] =>
     match parseScenario grace napps cfgs toks with
     | some sc => summary sc ++ " " ++ validate sc trace
